@@ -34,6 +34,7 @@ pub fn gen_cov_case(rng: &mut Rng, tier: &str, prop: &str) -> Case {
             mega_1_in: 0,
             twin_mega_1_in: 30000,
             many_1_in: 1500,
+            overflow_top_w: 1,
     };
     let records = g.gen(rng);
     let container = gen_container(rng, &records, false, true);
